@@ -298,13 +298,17 @@ fn xsd_file(voc: &Vocab, f: &Value) -> String {
 }
 
 fn soap_io(voc: &Vocab, tag: &str, io: &Value, out: &mut String) {
+    soap_io_p(voc, tag, io, "soap", out);
+}
+
+fn soap_io_p(voc: &Vocab, tag: &str, io: &Value, sp: &str, out: &mut String) {
     out.push_str(&format!("      <wsdl:{tag}>\n"));
     let us = s(io, "use").unwrap_or("literal");
     // `hfirst`: how many of the soap:header children precede soap:body (WSDL does not fix their order)
     let hfirst = io.get("hfirst").and_then(Value::as_u64).unwrap_or(0) as usize;
     let header = |h: &Value| {
         format!(
-            "        <soap:header message=\"tns:{}\" part=\"{}\" use=\"literal\"/>\n",
+            "        <{sp}:header message=\"tns:{}\" part=\"{}\" use=\"literal\"/>\n",
             xml_esc(&voc.name_xml(s(h, "msg").unwrap_or(""))),
             xml_esc(&voc.name_xml(s(h, "part").unwrap_or("")))
         )
@@ -313,8 +317,8 @@ fn soap_io(voc: &Vocab, tag: &str, io: &Value, out: &mut String) {
         out.push_str(&header(h));
     }
     match io.get("parts").and_then(Value::as_str) {
-        Some(p) => out.push_str(&format!("        <soap:body use=\"{us}\" parts=\"{}\"/>\n", xml_esc(&voc.name_xml(p)))),
-        None => out.push_str(&format!("        <soap:body use=\"{us}\"/>\n")),
+        Some(p) => out.push_str(&format!("        <{sp}:body use=\"{us}\" parts=\"{}\"/>\n", xml_esc(&voc.name_xml(p)))),
+        None => out.push_str(&format!("        <{sp}:body use=\"{us}\"/>\n")),
     }
     for h in arr(io, "headers").iter().skip(hfirst) {
         out.push_str(&header(h));
@@ -327,7 +331,7 @@ fn wsdl_file(voc: &Vocab, f: &Value) -> String {
     let tns_uri = f.get("tns").and_then(Value::as_str).map(|u| voc.uri(u)).unwrap_or_default();
     let mut out = String::from("<?xml version=\"1.0\" encoding=\"UTF-8\"?>\n");
     out.push_str(&format!(
-        "<wsdl:definitions xmlns:wsdl=\"http://schemas.xmlsoap.org/wsdl/\" xmlns:soap=\"http://schemas.xmlsoap.org/wsdl/soap/\" xmlns:xs=\"http://www.w3.org/2001/XMLSchema\" xmlns:tns=\"{}\"{} targetNamespace=\"{}\">\n",
+        "<wsdl:definitions xmlns:wsdl=\"http://schemas.xmlsoap.org/wsdl/\" xmlns:soap=\"http://schemas.xmlsoap.org/wsdl/soap/\" xmlns:soap12=\"http://schemas.xmlsoap.org/wsdl/soap12/\" xmlns:xs=\"http://www.w3.org/2001/XMLSchema\" xmlns:tns=\"{}\"{} targetNamespace=\"{}\">\n",
         xml_esc(&tns_uri),
         xmlns_attrs(voc, f),
         xml_esc(&tns_uri)
@@ -367,33 +371,59 @@ fn wsdl_file(voc: &Vocab, f: &Value) -> String {
     }
     out.push_str("  </wsdl:portType>\n");
     let bn = s(w, "binding").unwrap_or("BindT");
-    out.push_str(&format!(
-        "  <wsdl:binding name=\"{}\" type=\"tns:{}\">\n    <soap:binding style=\"document\" transport=\"http://schemas.xmlsoap.org/soap/http\"/>\n",
-        xml_esc(&voc.name_xml(bn)),
-        xml_esc(&voc.name_xml(pt))
-    ));
-    for o in arr(w, "ops") {
-        out.push_str(&format!("    <wsdl:operation name=\"{}\">\n", xml_esc(&voc.name_xml(s(o, "n").unwrap_or("")))));
-        match o.get("action") {
-            Some(Value::String(a)) => out.push_str(&format!("      <soap:operation soapAction=\"{}\"/>\n", xml_esc(&voc.text(a)))),
-            _ => out.push_str("      <soap:operation soapAction=\"\"/>\n"),
+    // `second_binding`: "before" | "after" - a SOAP 1.2 binding of the same port type next to the SOAP 1.1 one (what
+    // .NET and many other stacks publish); `port12_first`: its port is the first port of the service
+    let binding = |name: &str, sp: &str| -> String {
+        let mut out = format!(
+            "  <wsdl:binding name=\"{}\" type=\"tns:{}\">\n    <{sp}:binding style=\"document\" transport=\"http://schemas.xmlsoap.org/soap/http\"/>\n",
+            xml_esc(name),
+            xml_esc(&voc.name_xml(pt))
+        );
+        for o in arr(w, "ops") {
+            out.push_str(&format!("    <wsdl:operation name=\"{}\">\n", xml_esc(&voc.name_xml(s(o, "n").unwrap_or("")))));
+            match o.get("action") {
+                Some(Value::String(a)) => out.push_str(&format!("      <{sp}:operation soapAction=\"{}\"/>\n", xml_esc(&voc.text(a)))),
+                _ => out.push_str(&format!("      <{sp}:operation soapAction=\"\"/>\n")),
+            }
+            soap_io_p(voc, "input", &o["input"], sp, &mut out);
+            if let Some(om) = o.get("output").filter(|x| !x.is_null()) {
+                soap_io_p(voc, "output", om, sp, &mut out);
+            }
+            out.push_str("    </wsdl:operation>\n");
         }
-        soap_io(voc, "input", &o["input"], &mut out);
-        if let Some(om) = o.get("output").filter(|x| !x.is_null()) {
-            soap_io(voc, "output", om, &mut out);
-        }
-        out.push_str("    </wsdl:operation>\n");
+        out.push_str("  </wsdl:binding>\n");
+        out
+    };
+    let b11 = voc.name_xml(bn);
+    let b12 = format!("{b11}12");
+    let second = s(w, "second_binding");
+    if second == Some("before") {
+        out.push_str(&binding(&b12, "soap12"));
     }
-    out.push_str("  </wsdl:binding>\n");
+    out.push_str(&binding(&b11, "soap"));
+    if second == Some("after") {
+        out.push_str(&binding(&b12, "soap12"));
+    }
     let sn = s(w, "service").unwrap_or("Svc");
     let addr = s(w, "address").map_or("http://127.0.0.1:1/svc".to_string(), |a| voc.text(a));
-    out.push_str(&format!(
-        "  <wsdl:service name=\"{}\">\n    <wsdl:port name=\"{}Port\" binding=\"tns:{}\">\n      <soap:address location=\"{}\"/>\n    </wsdl:port>\n  </wsdl:service>\n",
-        xml_esc(&voc.name_xml(sn)),
-        xml_esc(&voc.name_xml(sn)),
-        xml_esc(&voc.name_xml(bn)),
-        xml_esc(&addr)
-    ));
+    let port = |suffix: &str, b: &str, sp: &str| {
+        format!(
+            "    <wsdl:port name=\"{}Port{suffix}\" binding=\"tns:{}\">\n      <{sp}:address location=\"{}\"/>\n    </wsdl:port>\n",
+            xml_esc(&voc.name_xml(sn)),
+            xml_esc(b),
+            xml_esc(&addr)
+        )
+    };
+    out.push_str(&format!("  <wsdl:service name=\"{}\">\n", xml_esc(&voc.name_xml(sn))));
+    let p12_first = w.get("port12_first").and_then(Value::as_bool).unwrap_or(false);
+    if second.is_some() && p12_first {
+        out.push_str(&port("12", &b12, "soap12"));
+    }
+    out.push_str(&port("", &b11, "soap"));
+    if second.is_some() && !p12_first {
+        out.push_str(&port("12", &b12, "soap12"));
+    }
+    out.push_str("  </wsdl:service>\n");
     out.push_str("</wsdl:definitions>\n");
     out
 }
